@@ -177,10 +177,21 @@ func run(resPath, casesPath, obsPath string) {
 	if err != nil {
 		lib.Fatal("%v", err)
 	}
-	lib.ParallelMap(len(cases), runtime.NumCPU(), func(i int) {
+	// C02_MUT=1: snapshot the resource around every evaluation (used by the C03 check, which runs sequentially so that
+	// a report always belongs to its own evaluation)
+	withMut := os.Getenv("C02_MUT") == "1"
+	workers := runtime.NumCPU()
+	if withMut {
+		workers = 1
+	}
+	lib.ParallelMap(len(cases), workers, func(i int) {
 		c := cases[i]
 		if c.Ti < 1 || c.Ti > len(resources) {
 			lib.Fatal("case %s: tree %d out of range", c.ID, c.Ti)
+		}
+		var snap *lib.Snapshot
+		if withMut {
+			snap = lib.TakeSnapshot([]proto.Message{resources[c.Ti-1]}, nil)
 		}
 		out := lib.EvalOutcome(forests[c.Ti-1], c.Text, lib.AsResources(resources[c.Ti-1]), nil, nil)
 		if items, ok := out["items"].([]lib.Item); ok {
@@ -203,6 +214,9 @@ func run(resPath, casesPath, obsPath string) {
 			rec[k] = v
 		}
 		rec["src"], rec["out"] = c.Text, out
+		if snap != nil {
+			rec["mut"] = snap.Report()
+		}
 		if err := w.Write(rec); err != nil {
 			lib.Fatal("%v", err)
 		}
